@@ -345,8 +345,9 @@ func (p *cacheProbe) MapInput(context.Context, *zap.Logger, controller.QRuntime,
 }
 
 type cacheRTCase struct {
-	Pre  []sOp `json:"pre"`  // writes before the runtime starts
-	Post []sOp `json:"post"` // writes after it started (quiescence after each)
+	Pre   []sOp `json:"pre"`             // writes before the runtime starts
+	Post  []sOp `json:"post"`            // writes after it started
+	Burst int   `json:"burst,omitempty"` // writes issued back to back between two quiescence points (0/1 = one)
 }
 
 func runCacheRTCase(t *testing.T, c cacheRTCase) (problems []string) {
@@ -409,10 +410,15 @@ func runCacheRTCase(t *testing.T, c cacheRTCase) (problems []string) {
 
 		compare("after start")
 
+		burst := max(c.Burst, 1)
+
 		for i, o := range c.Post {
 			execOp(ctx, st, o, t0, lastVer, &mu)
-			synctest.Wait()
-			compare(fmt.Sprintf("after write %d", i))
+
+			if (i+1)%burst == 0 || i == len(c.Post)-1 {
+				synctest.Wait()
+				compare(fmt.Sprintf("after write %d", i))
+			}
 		}
 
 		probe.mu.Lock()
@@ -438,8 +444,17 @@ func genCacheRTCase(r *rng) cacheRTCase {
 		c.Pre = append(c.Pre, *genWrite(r, present))
 	}
 
+	c.Burst = pick(r, []int{1, 1, 2, 3, 5, 8})
+
 	for range 3 + r.intn(12) {
-		c.Post = append(c.Post, *genWrite(r, present))
+		w := genWrite(r, present)
+		c.Post = append(c.Post, *w)
+
+		// destroy immediately followed by a re-creation of the same id (lands in one watch batch when Burst > 1)
+		if w.Op == "destroy" && r.chance(1, 2) {
+			present[w.ID] = true
+			c.Post = append(c.Post, sOp{NS: "n1", Typ: "T", ID: w.ID, Op: "create", VerRel: "undef", Exp: "any", Payload: "re"})
+		}
 	}
 
 	return c
@@ -448,7 +463,7 @@ func genCacheRTCase(r *rng) cacheRTCase {
 func TestC15(t *testing.T) {
 	dir := outDir(t)
 	rep := newReport("C15", "white-box: operation strings on the real cache.ResourceCache (append during bootstrap, mark, put/remove, get/list with and without selectors, teardown-bound contexts; readers issued before the mark are observed blocked under synctest) compared step by step with the model; "+
-		"black-box: a real Runtime with a cached kind, writes before and after Run, at every quiescence CachedState().List == state List, and a probe QController checks that its cached read is never older than the state at reconcile time; "+
+		"black-box: a real Runtime with a cached kind, writes before and after Run, writes issued singly or in back-to-back bursts (incl. destroy + re-create of one id in one batch), at every quiescence CachedState().List == state List, and a probe QController checks that its cached read is never older than the state at reconcile time; "+
 		"non-trivial = a blocked reader, filtered list or cancelled context occurred; distinct by op list")
 
 	type c15Case struct {
